@@ -479,9 +479,21 @@ public:
   }
   vf_atomic(vf_atomic const&) = delete;
   vf_atomic& operator=(vf_atomic const&) = delete;
-  void store(T v, std::memory_order o = std::memory_order_seq_cst) noexcept { wmm::do_store(_id, enc(v), o); }
+  // an operation through a pointer to an atomic that no longer exists (dead stack frame, object of an earlier execution)
+  bool stale(char const* op) const noexcept
+  {
+    if (wmm::W && _gen == wmm::W->gen && _id >= 0 && static_cast<size_t>(_id) < wmm::W->locs.size()) return false;
+    if (wmm::W) wmm::fail("stale-atomic-accessed", std::string(op) + " through a pointer to an atomic object that does not exist (any more)");
+    return true;
+  }
+  void store(T v, std::memory_order o = std::memory_order_seq_cst) noexcept
+  {
+    if (stale("store")) return;
+    wmm::do_store(_id, enc(v), o);
+  }
   T load(std::memory_order o = std::memory_order_seq_cst) const noexcept
   {
+    if (stale("load")) return T{};
     return dec(wmm::do_load(_id, o, std::is_enum<T>::value && sizeof(T) == 1));
   }
   operator T() const noexcept { return load(); }
